@@ -59,6 +59,15 @@ def corpus_scenarios():
     for f in FIELDS:
         S.append(scenario("mut-%s-child-first" % f, [blk(1, 0, 1), blk(2, 1, 2, sig="mut:" + f)], [2, 1, 2]))
         S.append(scenario("mut-%s-in-order" % f, [blk(1, 0, 1), blk(2, 1, 2, sig="mut:" + f)], [1, 2]))
+    # LOCAL IDENTITY: key 0 is the node key (p2pkey) of the verifying node in engine B.  Forged, unsigned and
+    # tampered blocks NAMING THE VERIFIER ITSELF: delivered as orphans (parked = addBlock nil whatever the slot)
+    # and in order
+    S.append(scenario("forged-names-local-orphan", [blk(1, 0, 1), blk(2, 1, 2, key=0, sig="wrongkey:5")], [2, 1, 2]))
+    S.append(scenario("unsigned-names-local-orphan", [blk(1, 0, 1), blk(2, 1, 2, key=0, sig="nosig")], [2, 1]))
+    S.append(scenario("forged-names-local-in-order", [blk(1, 0, 1, key=0, sig="wrongkey:6")], [1, 1]))
+    for f in ("Timestamp", "TxsRootHash", "BlockNo", "Confirms", "Sign"):
+        S.append(scenario("mut-%s-names-local-orphan" % f, [blk(1, 0, 1), blk(2, 1, 2, key=0, sig="mut:" + f)], [2, 1]))
+    S.append(scenario("honest-local-block", [blk(1, 0, 1), blk(2, -1, 2, key=0)], [1, 2]))
     # non-member / wrong slot, parked first
     S.append(scenario("nonmember-child-first", [blk(1, 0, 1), blk(2, 1, 2, key=6)], [2, 1, 2]))
     S.append(scenario("wrongslot-child-first", [blk(1, 0, 1), blk(2, 1, 2, delta=1), blk(3, 2, 3)], [3, 2, 1, 2, 3]))
@@ -158,6 +167,10 @@ def random_scenario(rng, idx, fixed=False):
                 b["delta"] = rng.randrange(1, 5)
             elif k == "wrongkey":
                 b["sig"] = "wrongkey:%d" % rng.randrange(NKEYS)
+                if rng.random() < 0.4:
+                    b["key"] = 0          # names the verifying node itself (engine B's local identity)
+                    if b["sig"] == "wrongkey:0":
+                        b["sig"] = "wrongkey:5"
             elif k == "nosig":
                 b["sig"] = "nosig"
             elif k == "mut":
